@@ -1,0 +1,120 @@
+//go:build verif
+
+// Contracts for govc (the /verif contract verifier). Comment-only: with the build tag off this file is not
+// compiled, with it on it adds no code.
+package aggregates
+
+// C14: every aggregate is specified per operation against its abstract state; because each clause holds for every
+// call, the reported value is a function of the net multiset M of the history (count = |M|, sum = the 64-bit wrapped
+// sum of M — wrapping addition is associative and commutative —, min/max = extreme class present, array = ascending
+// expansion), whatever the interleaving of additions and retractions.
+
+//@ func (*Count).Add
+//@   ensures step: c.count == wrap64(old(c.count) + ite(retraction, 0 - 1, 1))
+//@   ensures empty: result == (c.count == 0)
+//@ func (*Count).Trigger
+//@   ensures value: result.TypeID == 1 && result.Int == c.count && c.count == old(c.count)
+
+//@ func (*SumInt).Add
+//@   ensures step: c.sum == wrap64(old(c.sum) + ite(retraction, 0 - value.Int, value.Int))
+//@   ensures empty: result == (c.sum == 0)
+//@ func (*SumInt).Trigger
+//@   ensures value: result.TypeID == 1 && result.Int == c.sum && c.sum == old(c.sum)
+
+//@ func (*SumDuration).Add
+//@   ensures step: c.sum == wrap64(old(c.sum) + ite(retraction, 0 - value.Duration, value.Duration))
+//@   ensures empty: result == (c.sum == 0)
+//@ func (*SumDuration).Trigger
+//@   ensures value: result.TypeID == 6 && result.Duration == c.sum && c.sum == old(c.sum)
+
+//@ func (*SumFloat).Add
+//@   ensures step: same(c.sum, ite(retraction, old(c.sum) - value.Float, old(c.sum) + value.Float))
+//@ func (*SumFloat).Trigger
+//@   ensures value: result.TypeID == 2 && same(result.Float, c.sum)
+
+// averages: sum and count advance together; the value is Go's division of the two (Int and Duration truncate
+// toward zero); Trigger is only called on a non-empty group (count != 0) — established by the group-by nodes.
+//@ func (*AverageInt).Add
+//@   ensures step: c.sum.sum == wrap64(old(c.sum.sum) + ite(retraction, 0 - value.Int, value.Int)) && c.count.count == wrap64(old(c.count.count) + ite(retraction, 0 - 1, 1))
+//@   ensures empty: result == (c.count.count == 0)
+//@ func (*AverageInt).Trigger
+//@   requires c.count.count != 0
+//@   ensures value: result.TypeID == 1 && result.Int == wrap64(tdiv(c.sum.sum, c.count.count))
+//@ func (*AverageDuration).Add
+//@   ensures step: c.sum.sum == wrap64(old(c.sum.sum) + ite(retraction, 0 - value.Duration, value.Duration)) && c.count.count == wrap64(old(c.count.count) + ite(retraction, 0 - 1, 1))
+//@ func (*AverageDuration).Trigger
+//@   requires c.count.count != 0
+//@   ensures value: result.TypeID == 6 && result.Duration == wrap64(tdiv(c.sum.sum, c.count.count))
+//@ func (*AverageFloat).Add
+//@   ensures step: same(c.sum.sum, ite(retraction, old(c.sum.sum) - value.Float, old(c.sum.sum) + value.Float)) && c.count.count == wrap64(old(c.count.count) + ite(retraction, 0 - 1, 1))
+//@ func (*AverageFloat).Trigger
+//@   ensures value: result.TypeID == 2 && same(result.Float, fdiv(c.sum.sum, i2f(c.count.count)))
+
+// Min: a multiset of value classes, one item per class holding its multiplicity (>= 1).
+//@ spec riMin(c *Min) bool = addr(c.items) > 0 && forallK(k, thas(c.items, k) ==> ttag(c.items, k) == typeidptr(minKey) && 0 < addr(tget(c.items, k, minKey)) && addr(tget(c.items, k, minKey)) < frontier() && tget(c.items, k, minKey).count >= 1 && keycls(tget(c.items, k, minKey)) == k) && forallK(k1, forallK(k2, thas(c.items, k1) && thas(c.items, k2) && k1 != k2 ==> addr(tget(c.items, k1, minKey)) != addr(tget(c.items, k2, minKey))))
+//@ func (*Min).Add
+//@   requires riMin(c)
+//@   requires retraction ==> thas(c.items, cls(value))
+//@   assumes !retraction && thas(c.items, cls(value)) ==> tget(c.items, cls(value), minKey).count < 9223372036854775807
+//@   ensures ri.basic: addr(c.items) > 0
+//@   ensures ri.tags: forallK(k, thas(c.items, k) ==> ttag(c.items, k) == typeidptr(minKey) && 0 < addr(tget(c.items, k, minKey)) && addr(tget(c.items, k, minKey)) < frontier())
+//@   ensures ri.counts: forallK(k, thas(c.items, k) ==> tget(c.items, k, minKey).count >= 1)
+//@   ensures ri.keys: forallK(k, thas(c.items, k) ==> keycls(tget(c.items, k, minKey)) == k)
+//@   ensures ri.separation: forallK(k1, forallK(k2, thas(c.items, k1) && thas(c.items, k2) && k1 != k2 ==> addr(tget(c.items, k1, minKey)) != addr(tget(c.items, k2, minKey))))
+//@   ensures add: !retraction ==> thas(c.items, cls(value)) && tget(c.items, cls(value), minKey).count == ite(old(thas(c.items, cls(value))), old(tget(c.items, cls(value), minKey).count), 0) + 1
+//@   ensures retract: retraction && old(tget(c.items, cls(value), minKey).count) > 1 ==> thas(c.items, cls(value)) && tget(c.items, cls(value), minKey).count == old(tget(c.items, cls(value), minKey).count) - 1
+//@   ensures remove: retraction && old(tget(c.items, cls(value), minKey).count) == 1 ==> !thas(c.items, cls(value))
+//@   ensures frame: forallK(k, k != cls(value) ==> thas(c.items, k) == old(thas(c.items, k)) && (thas(c.items, k) ==> tget(c.items, k, minKey).count == old(tget(c.items, k, minKey).count)))
+//@   ensures empty: result == forallK(k, !thas(c.items, k))
+
+// Max: a multiset of value classes, one item per class holding its multiplicity (>= 1).
+//@ spec riMax(c *Max) bool = addr(c.items) > 0 && forallK(k, thas(c.items, k) ==> ttag(c.items, k) == typeidptr(maxKey) && 0 < addr(tget(c.items, k, maxKey)) && addr(tget(c.items, k, maxKey)) < frontier() && tget(c.items, k, maxKey).count >= 1 && keycls(tget(c.items, k, maxKey)) == k) && forallK(k1, forallK(k2, thas(c.items, k1) && thas(c.items, k2) && k1 != k2 ==> addr(tget(c.items, k1, maxKey)) != addr(tget(c.items, k2, maxKey))))
+//@ func (*Max).Add
+//@   requires riMax(c)
+//@   requires retraction ==> thas(c.items, cls(value))
+//@   assumes !retraction && thas(c.items, cls(value)) ==> tget(c.items, cls(value), maxKey).count < 9223372036854775807
+//@   ensures ri.basic: addr(c.items) > 0
+//@   ensures ri.tags: forallK(k, thas(c.items, k) ==> ttag(c.items, k) == typeidptr(maxKey) && 0 < addr(tget(c.items, k, maxKey)) && addr(tget(c.items, k, maxKey)) < frontier())
+//@   ensures ri.counts: forallK(k, thas(c.items, k) ==> tget(c.items, k, maxKey).count >= 1)
+//@   ensures ri.keys: forallK(k, thas(c.items, k) ==> keycls(tget(c.items, k, maxKey)) == k)
+//@   ensures ri.separation: forallK(k1, forallK(k2, thas(c.items, k1) && thas(c.items, k2) && k1 != k2 ==> addr(tget(c.items, k1, maxKey)) != addr(tget(c.items, k2, maxKey))))
+//@   ensures add: !retraction ==> thas(c.items, cls(value)) && tget(c.items, cls(value), maxKey).count == ite(old(thas(c.items, cls(value))), old(tget(c.items, cls(value), maxKey).count), 0) + 1
+//@   ensures retract: retraction && old(tget(c.items, cls(value), maxKey).count) > 1 ==> thas(c.items, cls(value)) && tget(c.items, cls(value), maxKey).count == old(tget(c.items, cls(value), maxKey).count) - 1
+//@   ensures remove: retraction && old(tget(c.items, cls(value), maxKey).count) == 1 ==> !thas(c.items, cls(value))
+//@   ensures frame: forallK(k, k != cls(value) ==> thas(c.items, k) == old(thas(c.items, k)) && (thas(c.items, k) ==> tget(c.items, k, maxKey).count == old(tget(c.items, k, maxKey).count)))
+//@   ensures empty: result == forallK(k, !thas(c.items, k))
+
+// Array: a multiset of value classes, one item per class holding its multiplicity (>= 1).
+//@ spec riArray(c *Array) bool = addr(c.items) > 0 && forallK(k, thas(c.items, k) ==> ttag(c.items, k) == typeidptr(arrayKey) && 0 < addr(tget(c.items, k, arrayKey)) && addr(tget(c.items, k, arrayKey)) < frontier() && tget(c.items, k, arrayKey).count >= 1 && keycls(tget(c.items, k, arrayKey)) == k) && forallK(k1, forallK(k2, thas(c.items, k1) && thas(c.items, k2) && k1 != k2 ==> addr(tget(c.items, k1, arrayKey)) != addr(tget(c.items, k2, arrayKey))))
+//@ func (*Array).Add
+//@   requires riArray(c)
+//@   requires retraction ==> thas(c.items, cls(value))
+//@   assumes !retraction && thas(c.items, cls(value)) ==> tget(c.items, cls(value), arrayKey).count < 9223372036854775807
+//@   ensures ri.basic: addr(c.items) > 0
+//@   ensures ri.tags: forallK(k, thas(c.items, k) ==> ttag(c.items, k) == typeidptr(arrayKey) && 0 < addr(tget(c.items, k, arrayKey)) && addr(tget(c.items, k, arrayKey)) < frontier())
+//@   ensures ri.counts: forallK(k, thas(c.items, k) ==> tget(c.items, k, arrayKey).count >= 1)
+//@   ensures ri.keys: forallK(k, thas(c.items, k) ==> keycls(tget(c.items, k, arrayKey)) == k)
+//@   ensures ri.separation: forallK(k1, forallK(k2, thas(c.items, k1) && thas(c.items, k2) && k1 != k2 ==> addr(tget(c.items, k1, arrayKey)) != addr(tget(c.items, k2, arrayKey))))
+//@   ensures add: !retraction ==> thas(c.items, cls(value)) && tget(c.items, cls(value), arrayKey).count == ite(old(thas(c.items, cls(value))), old(tget(c.items, cls(value), arrayKey).count), 0) + 1
+//@   ensures retract: retraction && old(tget(c.items, cls(value), arrayKey).count) > 1 ==> thas(c.items, cls(value)) && tget(c.items, cls(value), arrayKey).count == old(tget(c.items, cls(value), arrayKey).count) - 1
+//@   ensures remove: retraction && old(tget(c.items, cls(value), arrayKey).count) == 1 ==> !thas(c.items, cls(value))
+//@   ensures frame: forallK(k, k != cls(value) ==> thas(c.items, k) == old(thas(c.items, k)) && (thas(c.items, k) ==> tget(c.items, k, arrayKey).count == old(tget(c.items, k, arrayKey).count)))
+//@   ensures empty: result == forallK(k, !thas(c.items, k))
+
+// Min / Max report the value of the least / greatest class present (the order on classes is the order of Compare).
+//@ func (*Min).Trigger
+//@   requires riMin(c) && tlen(c.items) > 0
+//@   ensures least: thas(c.items, lastkey()) && forallK(k, thas(c.items, k) ==> lastkey() <= k) && same(result, tget(c.items, lastkey(), minKey).value)
+//@ func (*Max).Trigger
+//@   requires riMax(c) && tlen(c.items) > 0
+//@   ensures greatest: thas(c.items, lastkey()) && forallK(k, thas(c.items, k) ==> k <= lastkey()) && same(result, tget(c.items, lastkey(), maxKey).value)
+// Array lists every class present, in ascending order, each repeated by its multiplicity.
+//@ func (*Array).Trigger
+//@   requires riArray(c)
+//@   ascend 1 invariant items: riArray(c) && len(out) >= 0
+//@   ascend 1 step count: continues && len(out) == old(len(out)) + tget(c.items, lastkey(), arrayKey).count
+//@   ascend 1 step item: keycls(tget(c.items, lastkey(), arrayKey)) == lastkey()
+//@   ensures list: result.TypeID == 7 && !stopped()
+//@ func (*Array).Trigger$lit1
+//@   loop 1 invariant fill: 0 <= i && i <= itemTyped.count && len(out) == old(len(out)) + i
+//@   loop 1 step appended: len(out) == old(len(out)) + 1 && cls(out[len(out)-1]) == keycls(itemTyped)
